@@ -299,7 +299,8 @@ def classify(ur):
         for prim, nm, s in fns:
             if 'failed precondition' in (s.get('label') or ''):
                 callee_pre = nm
-        out['failures'].append({'function': body_fn, 'message': msg, 'obligation': ob, 'callee': callee_pre,
+        callee_is_proof = bool(callee_pre) and bool(re.search(r'\bproof\s+fn\s+%s\b' % re.escape(callee_pre.split('::')[-1]), text))
+        out['failures'].append({'function': body_fn, 'message': msg, 'obligation': ob, 'callee': callee_pre, 'callee_is_proof': callee_is_proof,
                                 'resource': ('rlimit' in msg.lower() or 'resource limit' in msg.lower()),
                                 'rendered': d.get('rendered', '')})
     failed_fns = [n for n, e in fb.items() if not e['success']]
@@ -536,7 +537,16 @@ def main(argv):
                     ob = x['obligation'] or (key + ':' + re.sub(r'\s+', '_', x['message'])[:60])
                     if x['callee']:
                         ob = (x['obligation'] or 'requires') + '@callsite-in:' + key
-                    violations.append({'function': key, 'obligation': ob, 'message': x['message'], 'rendered': x['rendered'], 'unit': u})
+                    # 'hint': an obligation of /verif's own proof text (loop invariant, assert, decreases, precondition of a
+                    # lemma called in a proof block); 'contract': a clause of a contract or a safety obligation of the code
+                    ml = x['message'].lower()
+                    hint = (not x['obligation']) and (('invariant' in ml) or ('assertion failed' in ml) or ('decreases' in ml) or bool(x.get('callee_is_proof')))
+                    # 'safety': index bounds / machine arithmetic of the code itself; when a proof step of the same function
+                    # fails too (typically the loop invariant that carried the bound) it is treated as its consequence
+                    safety = (not x['obligation']) and (not x['callee']) and (('index in bounds' in ml) or ('underflow/overflow' in ml) or ('division by zero' in ml)
+                                                                             or ('precondition' in ml and re.search(r'\b(debug_)?assert(_eq|_ne)?!', x['rendered'] or '') is not None))
+                    violations.append({'function': key, 'obligation': ob, 'message': x['message'], 'rendered': x['rendered'], 'unit': u,
+                                       'kind': 'hint' if hint else ('safety' if safety else 'contract')})
     # vacuity
     vac_problems = []
     for u in units:
@@ -593,6 +603,15 @@ def main(argv):
         named = [v for v in vs if not v['obligation'].startswith(fn + ':')]
         lead = dict((named or vs)[0])
         lead['all_failed'] = sorted(set(v['obligation'] for v in vs))
+        kinds = set(v.get('kind') for v in vs)
+        if 'contract' in kinds or ('safety' in kinds and 'hint' not in kinds):
+            lead['kind'] = 'contract'
+            c0 = [v for v in vs if v.get('kind') == 'contract'] or [v for v in vs if v.get('kind') == 'safety']
+            if (named or vs)[0].get('kind') == 'hint':
+                # let a contract clause lead the report when one failed
+                lead.update({'obligation': c0[0]['obligation'], 'message': c0[0]['message']})
+        else:
+            lead['kind'] = 'hint'
         lead['rendered'] = '\n'.join(dict.fromkeys(v['rendered'] for v in vs))
         uniq.append(lead)
     final_viol = uniq
@@ -757,6 +776,13 @@ def main(argv):
         # from the contract anchors, only a concrete failing input makes it a violation.
         rs = run_replay_search(pid, final_viol[0], seed, budget)
         found = bool(rs and rs.get('found'))
+        if not found and not drift_notes and all(v.get('kind') == 'hint' for v in final_viol):
+            # every contract clause still discharges; what fails is a step of the proof text itself (an invariant, an
+            # assert, the precondition of a lemma) and no failing input exists within the replay search: the proof no
+            # longer fits the code, which is not evidence against the property
+            for v in final_viol:
+                print('INCONCLUSIVE property=%s reason=proof step %s in %s no longer discharges (all contract clauses do); replay search found no failing input' % (pid, v['obligation'], v['function']))
+            return 2
         if drift_notes and not found:
             for s_ in drift_notes[:5]:
                 print('INCONCLUSIVE property=%s reason=contract drift (hint skipped): %s' % (pid, s_))
